@@ -2197,7 +2197,7 @@ fn analyze_assignment_steps(
 	base_type: ValueType,
 	previous_steps: Vec<ReferenceStep>,
 	address_depth: u8,
-) -> Result<(Vec<ReferenceStep>, u8), (Vec<ReferenceStep>, ValueType)>
+) -> Result<(Vec<ReferenceStep>, u8), (Vec<ReferenceStep>, Option<ValueType>)>
 {
 	let mut steps = Vec::new();
 	let mut current_type = base_type;
@@ -2272,7 +2272,7 @@ fn analyze_assignment_steps(
 							is_endless,
 						});
 						steps.extend(previous_steps);
-						return Err((steps, current_type));
+						return Err((steps, Some(current_type)));
 					}
 				}
 				ReferenceStep::Element {
@@ -2307,7 +2307,14 @@ fn analyze_assignment_steps(
 					{
 						current_type = member_type;
 					}
-					Some(Err(_poison)) => unreachable!(),
+					Some(Err(_poison)) =>
+					{
+						// The declaration of this member is erroneous.
+						// Keep the remaining steps as is.
+						steps.push(ReferenceStep::Member { member, offset });
+						steps.extend(previous_steps);
+						return Err((steps, None));
+					}
 					None => unreachable!(),
 				}
 				ReferenceStep::Member { member, offset }
@@ -2420,7 +2427,18 @@ impl Reference
 			)
 			{
 				Ok((steps, excess_addresses)) => (steps, excess_addresses),
-				Err((steps, current_type)) =>
+				Err((steps, None)) =>
+				{
+					// The error was reported where the member is declared.
+					return Reference {
+						base: Err(Poison::Poisoned),
+						steps,
+						address_depth: self.address_depth,
+						location: self.location,
+						location_of_unaddressed: self.location_of_unaddressed,
+					};
+				}
+				Err((steps, Some(current_type))) =>
 				{
 					let previous = typer
 						.get_valid_declaration(base)
